@@ -28,7 +28,7 @@ fn static_ty(v: &Val) -> Ty {
 }
 
 #[derive(Clone, Debug)]
-pub struct Test { pub expr: String, pub value: Val, pub target: usize, pub must_accept: bool, pub form: &'static str }
+pub struct Test { pub expr: String, pub value: Val, pub target: usize, pub must_accept: bool, pub form: &'static str, /** the alias the scrutinee is statically typed at, when it is not the literal's exact type */ pub static_alias: Option<usize> }
 
 pub struct Case { pub aliases: Vec<Ty>, pub alias_src: String, pub helpers: String, pub tests: Vec<Test> }
 
@@ -51,17 +51,23 @@ pub fn gen_case(rng: &mut Rng) -> Option<Case> {
         let st = static_ty(&v);
         // compile-time containment of the literal's exact type in the target, by enumeration
         let all_in = { let a: Vec<Ty> = ap.aliases.clone(); let sem2 = Sem { aliases: &a }; let st_ref: &Ty = &st; let members = Sem { aliases: &a }.enumerate(unsafe { std::mem::transmute::<&Ty, &Ty>(st_ref) }, 3, 60); !members.is_empty() && members.iter().all(|m| sem2.is_member(m, &a[target])) };
-        let form = match rng.below(4) { 0 => "type-pattern", 1 => "type-ascribed-binding", 2 => "via-generic-identity", _ => "type-pattern" };
+        let form = match rng.below(6) { 0 => "type-pattern", 1 => "type-ascribed-binding", 2 => "via-generic-identity", 3 | 4 => "via-alias-typed-parameter", _ => "type-pattern" };
+        // through a function whose parameter is the (wider) alias the value was drawn from: the scrutinee's compile-time type is
+        // then that alias, not the literal's exact type — acceptance is only required when the compile-time type is contained
+        // in the target, which is not decided here, so this form checks soundness (accepted => member) only
+        let all_in = if form == "via-alias-typed-parameter" { false } else { all_in };
         let expr = match form {
             "type-ascribed-binding" => format!("[{} =('t{})q{}]", e, target, tests.len()),
             "via-generic-identity" => format!("[{} ident ='t{}]", e, target),
+            "via-alias-typed-parameter" => if rng.chance(1, 2) { format!("[{} pass{} ='t{}]", e, src_alias, target) } else { format!("[{} pass{} =('t{})w{}]", e, src_alias, target, tests.len()) },
             _ => format!("[{} ='t{}]", e, target),
         };
-        tests.push(Test { expr, value: v, target, must_accept: all_in, form });
+        tests.push(Test { expr, value: v, target, must_accept: all_in, form, static_alias: if form == "via-alias-typed-parameter" { Some(src_alias) } else { None } });
     }
     // wide-static-type values against W-partials are covered by soundness only
     if tests.is_empty() { return None; }
     let alias_src = ap.aliases.iter().enumerate().map(|(i, t)| format!("'t{} = {}", i, emit(t))).collect::<Vec<_>>().join("\n");
+    let helpers = format!("{}{}", helpers, usable.iter().map(|i| format!("pass{} = #'t{} {{ $ }},\n", i, i)).collect::<String>());
     Some(Case { aliases: ap.aliases, alias_src, helpers, tests })
 }
 
@@ -120,7 +126,7 @@ pub fn check(rep: &Report) {
                 rep.eval(1);
                 let is_member = sem.is_member(&t.value, &case.aliases[t.target]);
                 rep.count(&format!("form={}", t.form), 1);
-                let rec = c09::has_cycle_deep(&case.aliases[t.target], &case.aliases);
+                let rec = c09::has_cycle_deep(&case.aliases[t.target], &case.aliases) || t.static_alias.map(|a| c09::has_cycle_deep(&case.aliases[a], &case.aliases)).unwrap_or(false);
                 if *accepted && !is_member { viol(if rec { "accepted-non-member:recursive-types" } else { "accepted-non-member" }, format!("[{}] `{}` accepted the value {} which does not inhabit 't{} = {}", name, t.expr, t.value.show(), t.target, emit(&case.aliases[t.target]))); }
                 else if !*accepted && t.must_accept { viol(if rec { "rejected-known-member:recursive-types" } else { "rejected-known-member" }, format!("[{}] `{}` rejected the value {} although its compile-time type is contained in 't{} = {}", name, t.expr, t.value.show(), t.target, emit(&case.aliases[t.target]))); }
                 else { if *accepted { rep.count("accepted_members", 1); } else if is_member { rep.count("rejected_members_with_wider_static_type(allowed)", 1); } else { rep.count("rejected_non_members", 1); } if t.must_accept { rep.count("required_acceptances_confirmed", 1); } rep.distinct(crate::rng::fnv64(format!("{}|{}", t.expr, emit(&case.aliases[t.target])).as_bytes())); }
